@@ -91,6 +91,8 @@ pub enum Input {
     FwdTsn(u32, Vec<(u16, u16)>),
     Close(u16),
     Teardown,
+    /// RE-CONFIG chunk with this value, from the peer
+    Reconfig(Vec<u8>),
 }
 impl Input {
     pub fn term(&self) -> String {
@@ -103,6 +105,7 @@ impl Input {
             Input::FwdTsn(n, ps) => format!("IFwdTsn {} {}", n, list_term(&ps.iter().map(|(a, b)| format!("({}, {})", a, b)).collect::<Vec<_>>())),
             Input::Close(s) => format!("IClose {}", s),
             Input::Teardown => "ITeardown".into(),
+            Input::Reconfig(v) => format!("IReconfig {}", bytes_t(v)),
         }
     }
     pub fn json(&self) -> serde_json::Value {
@@ -115,6 +118,7 @@ impl Input {
             Input::FwdTsn(n, ps) => serde_json::json!({"forward_tsn": n, "streams": ps}),
             Input::Close(s) => serde_json::json!({"close_data_channel": s}),
             Input::Teardown => serde_json::json!("teardown"),
+            Input::Reconfig(v) => serde_json::json!({"reconfig": hex(v)}),
         }
     }
 }
@@ -340,6 +344,7 @@ impl Assoc {
                 for (s, q) in ps { v.extend_from_slice(&s.to_be_bytes()); v.extend_from_slice(&q.to_be_bytes()); }
                 self.send_chunks(self.uut_tag, &[Chunk { ty: 192, flags: 0, value: v }]);
             }
+            Input::Reconfig(v) => self.send_chunks(self.uut_tag, &[Chunk { ty: 130, flags: 0, value: v.clone() }]),
             Input::Close(sid) => {
                 // an API call: everything injected so far must have been handled first
                 self.barrier().await;
@@ -490,6 +495,42 @@ pub fn peer_chunks_ex(sc: &[SChan], w: &[Sub], t0: u32, dcep_unordered: bool, dc
         }
     }
     out
+}
+
+/// RE-CONFIG chunk value with one Outgoing SSN Reset Request parameter, RFC 6525 4.1 (written from
+/// the RFC): type 13, length 16 + 2n (padding excluded), request SN, response SN, sender's last
+/// TSN, n stream numbers, zero padding to a multiple of 4
+pub fn ssn_reset_bytes(req_sn: u32, resp_sn: u32, last_tsn: u32, ids: &[u16]) -> Vec<u8> {
+    let mut v = vec![];
+    v.extend_from_slice(&13u16.to_be_bytes());
+    v.extend_from_slice(&((16 + 2 * ids.len()) as u16).to_be_bytes());
+    v.extend_from_slice(&req_sn.to_be_bytes());
+    v.extend_from_slice(&resp_sn.to_be_bytes());
+    v.extend_from_slice(&last_tsn.to_be_bytes());
+    for i in ids { v.extend_from_slice(&i.to_be_bytes()); }
+    while v.len() % 4 != 0 { v.push(0); }
+    v
+}
+/// Parse a RE-CONFIG chunk value per RFC 6525: the stream lists of its Outgoing SSN Reset Request
+/// parameters; Err if the TLV structure is not well formed (lengths, zero padding, total size)
+pub fn parse_ssn_resets(v: &[u8]) -> Result<Vec<Vec<u16>>, String> {
+    let mut out = vec![];
+    let mut off = 0;
+    while off < v.len() {
+        if off + 4 > v.len() { return Err("truncated parameter header".into()); }
+        let ty = u16::from_be_bytes([v[off], v[off + 1]]);
+        let len = u16::from_be_bytes([v[off + 2], v[off + 3]]) as usize;
+        if len < 4 || off + len > v.len() { return Err(format!("parameter length {} does not fit", len)); }
+        let padded = (len + 3) & !3;
+        if off + padded > v.len() { return Err("padding missing".into()); }
+        if v[off + len..off + padded].iter().any(|b| *b != 0) { return Err("non-zero padding".into()); }
+        if ty == 13 {
+            if len < 16 || (len - 16) % 2 != 0 { return Err(format!("SSN reset request of length {}", len)); }
+            out.push(v[off + 16..off + len].chunks(2).map(|c| u16::from_be_bytes([c[0], c[1]])).collect());
+        }
+        off += padded;
+    }
+    Ok(out)
 }
 
 /// DataChannelOpen per RFC 8832 §5.1 (written from the RFC)
